@@ -376,6 +376,19 @@ def main():
     results = run_all(scs, 8 if tier == "quick" else 10, v, cov)
     fres = [f.result() for f in ffut]
     fex.shutdown()
+    # a node that is the only one running (restarted alone after a crash of the whole cluster) has no quorum: nothing it
+    # acknowledges in that time can be durable. Whatever it does acknowledge must still be there after the full restart.
+    lp = None
+    for attempt in range(2):
+        lp, lstats = clusterscen.lone_restart_ack(seed=seed + attempt)
+        if lp is not None:
+            break
+    cov["lone_restart"] = lstats
+    if lp is None:
+        print("NOTE: scenario lone-restart inconclusive (%s)" % lstats.get("inconclusive"), flush=True)
+    for pr in lp or []:
+        v.report({"branch": "restart.lone_node", "kind": pr["kind"], "detail": "acknowledged-without-quorum" if pr.get("acknowledged_by_lone_node") else ""}, pr,
+                 what="whole cluster killed, node 1 restarted alone and written to, then everything restarted: %s" % pr["detail"])
     cov["failover_scenarios"] = {}
     for r in fres:
         cov["failover_scenarios"][r["name"]] = dict(r["stats"], inconclusive=r["inconclusive"])
